@@ -114,6 +114,9 @@ type c02Sim struct {
 	pkg  *ssa.Package
 	// atom assigns a truth value to a boolean value by pattern (the rule's assumption).
 	atom func(v ssa.Value, f *c02Frame, st *c02State) (bool, bool)
+	// pre is a standing assumption of the whole rule (consulted before atom; kept by discover): e.g. "the message
+	// examined is a ROUND-CHANGE" when a predicate is explored through its dispatcher.
+	pre func(v ssa.Value, f *c02Frame, st *c02State) (bool, bool)
 	// opaque callees are never inlined.
 	opaque func(fn *ssa.Function) bool
 	// want forces inlining of callees without a boolean result.
@@ -379,6 +382,11 @@ func (s *c02Sim) eval(v ssa.Value, f *c02Frame, st *c02State) c02Abs { return s.
 func (s *c02Sim) evalD(v ssa.Value, f *c02Frame, st *c02State, d int) c02Abs {
 	if d > 24 || v == nil {
 		return c02Unknown
+	}
+	if s.pre != nil {
+		if t, ok := s.pre(v, f, st); ok {
+			return c02AbsOf(t)
+		}
 	}
 	if s.atom != nil {
 		if t, ok := s.atom(v, f, st); ok {
@@ -1081,12 +1089,17 @@ func (c c02Cell) name() string {
 func c02StaticCell(a ssa.Value) c02Cell { return c02StaticCellD(a, 0) }
 
 func c02StaticCellD(a ssa.Value, d int) c02Cell {
-	if d > 8 {
+	if d > 12 {
 		return c02Cell{}
 	}
 	switch x := a.(type) {
 	case *ssa.Alloc:
 		return c02Cell{al: x}
+	case *ssa.Call:
+		// `r := newRunner(...)`: the state struct is made by a constructor called from exactly one place
+		if al := c02CtorAlloc(x); al != nil {
+			return c02Cell{al: al}
+		}
 	case *ssa.FreeVar:
 		if b := c02StaticBinding(x); b != nil {
 			return c02StaticCellD(b, d+1)
@@ -1132,11 +1145,76 @@ func c02StaticCellD(a ssa.Value, d int) c02Cell {
 					if al, ok := sts[0].Val.(*ssa.Alloc); ok {
 						return c02Cell{al: al}
 					}
+					if call, ok := sts[0].Val.(*ssa.Call); ok {
+						if al := c02CtorAlloc(call); al != nil {
+							return c02Cell{al: al}
+						}
+					}
 				}
 			}
 		}
 	}
 	return c02Cell{}
+}
+
+// c02CtorAlloc: the call is the only call of an in-package top-level function (a constructor) every return of which
+// hands out the address of one and the same struct it allocates: the pointer returned denotes that one struct.
+func c02CtorAlloc(call *ssa.Call) *ssa.Alloc {
+	if call.Call.IsInvoke() || call.Call.StaticCallee() == nil || call.Parent() == nil {
+		return nil
+	}
+	fn := an.Orig(call.Call.StaticCallee())
+	if fn.Parent() != nil || fn.Blocks == nil || c02PkgOf(fn) == nil || c02PkgOf(fn) != c02PkgOf(call.Parent()) {
+		return nil
+	}
+	if pt, ok := call.Type().Underlying().(*types.Pointer); !ok {
+		return nil
+	} else if _, isStruct := pt.Elem().Underlying().(*types.Struct); !isStruct {
+		return nil
+	}
+	if sites := c02InPkgCallers(fn); len(sites) != 1 || c02FnUsedAsValue(fn) {
+		return nil
+	}
+	var out *ssa.Alloc
+	rets := an.Returns(fn)
+	if len(rets) == 0 {
+		return nil
+	}
+	for _, ret := range rets {
+		if len(ret.Results) != 1 {
+			return nil
+		}
+		al, ok := an.Unwrap(ret.Results[0]).(*ssa.Alloc)
+		if !ok || (out != nil && out != al) {
+			return nil
+		}
+		out = al
+	}
+	// the call must not sit in a loop of its function (one activation, one struct)
+	if c02BlockInCycle(call.Block()) {
+		return nil
+	}
+	return out
+}
+
+func c02BlockInCycle(b *ssa.BasicBlock) bool {
+	seen := map[*ssa.BasicBlock]bool{}
+	var walk func(x *ssa.BasicBlock) bool
+	walk = func(x *ssa.BasicBlock) bool {
+		for _, s := range x.Succs {
+			if s == b {
+				return true
+			}
+			if !seen[s] {
+				seen[s] = true
+				if walk(s) {
+					return true
+				}
+			}
+		}
+		return false
+	}
+	return walk(b)
 }
 
 // c02CellStores returns every store into the state variable (or an enclosing struct of it), in its function
